@@ -310,6 +310,118 @@ func c07OpenCancel(kind, at string, other int, ctxk string) cwScenario {
 		fmt.Sprintf("other:%d", other), "ctx:" + ctxk}}
 }
 
+// c07StalledSend: the cancellation lands while the handler is parked in SendMsg behind the connection's stalled writer
+// (the server's transport accepts no Write: the writer goroutine sits in its Write with one envelope, the handler's
+// next SendMsg waits for the writer). After the reset has reached the server that SendMsg must have returned with the
+// context's error ("handler reads / writes unblock on its context") and the handler must be able to return.
+func c07StalledSend(kind string, k int, deadline bool, clientRecv bool, other int) cwScenario {
+	var steps []Step
+	c := 0
+	switch other {
+	case 1:
+		steps = append(steps, Step{Op: "open", Kind: "Bidi"}, Step{Op: "c2s"}, Step{Op: "send", C: 0, B: 90}, Step{Op: "c2s"},
+			hop(0, HOp{Op: "recv"}), hop(0, HOp{Op: "send", B: 91}), Step{Op: "s2c"}, Step{Op: "recv", C: 0})
+		c = 1
+	case 2:
+		steps = append(steps, Step{Op: "unary", B: 95, Gate: true}, Step{Op: "c2s"})
+		c = 1
+	}
+	open := Step{Op: "open", Kind: kind}
+	if deadline {
+		open.D = 5000
+	}
+	open.Ctx = ctxKindFor(deadline, k+other+len(kind))
+	steps = append(steps, open, Step{Op: "c2s"}, Step{Op: "send", C: c, B: 10}, Step{Op: "c2s"}, hop(c, HOp{Op: "recv"}))
+	for j := 0; j < k; j++ {
+		steps = append(steps, hop(c, HOp{Op: "send", B: int64(20 + j)}), Step{Op: "s2c"}, Step{Op: "recv", C: c})
+	}
+	steps = append(steps, Step{Op: "sblock", B: 1}, hop(c, HOp{Op: "send", B: 30}), hop(c, HOp{Op: "send", B: 31}))
+	if clientRecv {
+		steps = append(steps, Step{Op: "recv", C: c})
+	}
+	if deadline {
+		steps = append(steps, Step{Op: "tick", D: 5000})
+	} else {
+		steps = append(steps, Step{Op: "cancel", C: c})
+	}
+	steps = append(steps, Step{Op: "drain"}, Step{Op: "recv", C: c}, hop(c, HOp{Op: "return", Ctx: true}), Step{Op: "drain"},
+		Step{Op: "sblock", B: 0}, Step{Op: "drain"})
+	switch other {
+	case 1:
+		steps = append(steps, Step{Op: "send", C: 0, B: 92}, Step{Op: "c2s"}, hop(0, HOp{Op: "recv"}), hop(0, HOp{Op: "send", B: 93}),
+			Step{Op: "s2c"}, Step{Op: "recv", C: 0}, Step{Op: "closesend", C: 0}, Step{Op: "c2s"}, hop(0, HOp{Op: "recv"}),
+			hop(0, HOp{Op: "return"}), Step{Op: "s2c"}, Step{Op: "recv", C: 0})
+	case 2:
+		steps = append(steps, Step{Op: "hu", B: 95}, Step{Op: "drain"})
+	}
+	how := "cancel"
+	if deadline {
+		how = "deadline"
+	}
+	return cwScenario{Mode: "e2e", Steps: steps, Tags: []string{"c07", "kind:" + kind, "handler:parked-in-send-behind-stalled-writer", "how:" + how,
+		fmt.Sprintf("sent-before:%d", k), fmt.Sprintf("client-recv-pending:%v", clientRecv), fmt.Sprintf("other:%d", other), "ctx:" + open.Ctx}}
+}
+
+func c07StalledSendScenarios(full bool) []cwScenario {
+	var out []cwScenario
+	for ki, kind := range []string{"Bidi", "SStream"} {
+		for k := 0; k <= 2; k++ {
+			for dl := 0; dl < 2; dl++ {
+				for cr := 0; cr < 2; cr++ {
+					for other := 0; other <= 2; other++ {
+						if !full && (ki+k+dl+cr+other)%2 == 1 {
+							continue
+						}
+						out = append(out, c07StalledSend(kind, k, dl == 1, cr == 1, other))
+					}
+				}
+			}
+		}
+	}
+	return out
+}
+
+// c07Scale: n concurrent streams on one connection (kinds and caller contexts mixed) whose handlers only end on
+// cancellation (they wait for their contexts); then all of them are cancelled (or the oldest one, with all the others
+// active). Every cancelled call's handler context is done once its reset has reached the server, and the handler
+// returns. n ranges over the resource numbers of the code (8 workers, queue capacities 1 and 16) and the round numbers
+// a limit might be set to. Not compared with the model (mode e2efree): predicates only.
+func c07Scale(n int, how string) cwScenario {
+	var s []Step
+	kinds := []string{"Bidi", "CStream", "SStream"}
+	for i := 0; i < n; i++ {
+		s = append(s, Step{Op: "open", Kind: kinds[i%3], Ctx: ctxKindFor(false, i)}, Step{Op: "c2s"})
+	}
+	for i := 0; i < n; i++ {
+		s = append(s, hop(i, HOp{Op: "await"}))
+	}
+	m := n
+	if how == "oldest" {
+		m = 1
+	}
+	for i := 0; i < m; i++ {
+		s = append(s, Step{Op: "cancel", C: i})
+	}
+	s = append(s, Step{Op: "drain"})
+	for i := 0; i < m; i++ {
+		s = append(s, hop(i, HOp{Op: "return", Ctx: true}))
+	}
+	s = append(s, Step{Op: "drain"})
+	return cwScenario{Mode: "e2efree", Steps: s, Tags: []string{"c07", "family:scale", fmt.Sprintf("streams:%d", n), "cancel:" + how}}
+}
+
+func c07ScaleScenarios(full bool) []cwScenario {
+	var out []cwScenario
+	ns := []int{9, 17, 33, 101, 129}
+	if full {
+		ns = []int{2, 9, 17, 33, 65, 101, 129, 257, 1001}
+	}
+	for _, n := range ns {
+		out = append(out, c07Scale(n, "all"), c07Scale(n, "oldest"))
+	}
+	return out
+}
+
 func c07OpenCancelScenarios() []cwScenario {
 	var out []cwScenario
 	for _, kind := range []string{"Bidi", "CStream", "SStream"} {
